@@ -233,14 +233,16 @@ def classify(cx, rel, node, crate, fninfo):
                 return "free", f".{m}() with hash-only effects"
             if m in ORDER_PICKING_TERMINALS:
                 return "ordered", f".{m}() picks by hash order"
-            if m in ("collect", "collect_vec"):
-                recs = cx.mir.at(rel, p["sp"][0], p["sp"][1], "collect")
+            if m in ("collect", "collect_vec", "to_vec", "to_owned", "clone"):
+                recs = cx.mir.at(rel, p["sp"][0], p["sp"][1], m)
                 rets = {r["ret"] for r in recs}
                 ty = None
                 if len(rets) == 1:
                     ty = rets.pop()
                 elif p.get("turbofish"):
                     ty = p["turbofish"]
+                elif m != "collect":
+                    ty = "std::vec::Vec<_>"
                 if ty is None:
                     return "ordered", ".collect() whose target type could not be resolved"
                 if order_sensitive:
@@ -542,9 +544,36 @@ def r13_4(run, cx):
         run.floor(f"types reachable from {root}", len(seen), 3)
 
 
+def r13_5(run, cx):
+    run.rule("R13.5", "a caller-supplied list of source files is put into canonical (sorted) order before its order can reach "
+                      "an ordered sink (file list, top-level order, interface hash); search paths with first-match semantics are not lists of sources")
+    n = 0
+    for f in cx.model.fns():
+        if not f.file.startswith("crates/compiler/src/") or f.file.endswith("main.rs") or f.body is None:
+            continue
+        plist = [p for p in f.params() if not p["self"] and re.search(r"(\[|Vec<)\s*(std::path::)?PathBuf", p["ty"] or "")
+                 and p["pat"]["k"] == "PIdent"]
+        if not plist:
+            continue
+        if not any(True for _ in S.calls(f.body, "parse_ast_file", "parse_file", "parse")):
+            continue  # not a consumer of source files (e.g. an interface search path)
+        for p in plist:
+            name = p["pat"]["name"]
+            uses = [x for x in S.walk(f.body) if x["k"] == "Path" and x["segs"] == [name]]
+            for u in uses:
+                n += 1
+                verdict, sink = classify(cx, f.file, u, "compiler", f)
+                ok = verdict != "ordered"
+                run.ob("R13.5", f"{f.qual}|{name}->{re.sub(r'[^A-Za-z0-9_.:()]+', ' ', sink.split(';')[0])[:60].strip()}" if not ok else f"{f.qual}|{name}@{cx.parents(f.file).parent(u).get('method', cx.parents(f.file).parent(u)['k'])}",
+                       ok, site(f.file, u["sp"]), f"use of source list `{name}`: {sink}",
+                       witness="pass the same files in another order: file order, top-level order and the interface hash change")
+    run.floor("uses of caller-supplied source lists", n, 1)
+
+
 def run(run, model):
     cx = Ctx(run, model)
     r13_1(run, cx)
+    r13_5(run, cx)
     r13_2(run, cx)
     r13_3(run, cx)
     r13_4(run, cx)
